@@ -2,7 +2,8 @@
 """Prints the brief for an independent mutation sub-agent for property Cxx (gets only the property text)."""
 import json, sys, os
 pid = sys.argv[1]
-round2 = len(sys.argv) > 2 and sys.argv[2] == '2'
+rnd = int(sys.argv[2]) if len(sys.argv) > 2 else 1
+round2 = rnd >= 2
 V = os.path.dirname(os.path.dirname(os.path.dirname(os.path.abspath(__file__))))
 for l in open(os.path.join(V, 'properties.jsonl')):
     p = json.loads(l)
@@ -12,13 +13,13 @@ excl = ''
 first = 1
 if round2:
     import glob
-    first = 4
     done = []
     for mp in sorted(glob.glob(os.path.join(V, 'seeded', pid + '-m*', 'meta.json'))):
         done.append('  - ' + json.load(open(mp))['change'])
-    excl = ('\nThis is a second round. The following changes were already produced for this property; do NOT repeat them or close variants '
+    first = len(done) + 1
+    excl = ('\nThis is a later round. The following changes were already produced for this property; do NOT repeat them or close variants '
             '(same statement or same check in the same function) — go for different functions, mechanisms and clauses of the property:\n'
-            + '\n'.join(done) + '\nNumber your mutants m4, m5, m6.\n')
+            + '\n'.join(done) + '\nNumber your mutants m' + str(first) + ', m' + str(first+1) + ', m' + str(first+2) + '.\n')
 print(f'''You are helping to evaluate verification tooling for libopus (xiph/opus, the reference C implementation of the Opus audio codec). You have your own scratch git worktree of the repository at /tmp/mut-{pid} . Work ONLY there and in /tmp/mut-{pid}-out . Do not read, list or touch /verif or /repo (your result must be independent of any existing verification machinery).
 
 Here is a semantic property the library is supposed to satisfy:
